@@ -150,13 +150,16 @@ def run(ctx):
     cstats = container_level(ctx, rep)
     runlevel.with_extra(ctx, "c19seed", lambda: edge_seed_specs(ctx))
     stats, samples = runlevel.noisy_replay(ctx, rep, ctx.pid)
+    fstats = runlevel.full_replay(ctx, rep)
     rep.coverage = {
+        "composed_model": fstats,
         "evaluations": stats["iterations"] + stats["final_selects"] + cstats["ops"] + cstats["result_ops"],
         "distinct_nontrivial": stats["moves"] + stats["reevals"] + stats["final_selects"] + cstats["overwrites"] + cstats["errors"],
         "rule": "run level: one evaluation = one loop iteration / final selection of a traced run replayed through Noisy.iterStep (see C05); every recorded iterate checked against the run's own call log "
                 "(x evaluated, yval observed there / within the range of the observations there under specified noise), func_count monotone, returned x is a recorded iterate, result fields vs problem and final state. "
                 "container level: random record/overwrite/invalid sequences with mutable values mutated after recording on IterationHistory, set/get-by-key/get-by-attribute on OptimizeResult; "
-                "non-trivial = incumbent moves + re-estimations + overwrites + rejected operations",
+                "non-trivial = incumbent moves + re-estimations + overwrites + rejected operations; composed model: every run (all noise modes) replayed through Full.step "
+                "(candidate sets, picks, returned values and GP estimates in; evaluated points, derived improvements, incumbent estimate, recording index, counters and mesh out)",
         "samples": samples, "traces_validated_against_impl": stats["runs"], "stats": stats, "container": cstats,
     }
     rep.assumptions = ["deep-copy (aliasing) behaviour is heap behaviour: covered by the differential, not by a theorem"]
